@@ -2363,7 +2363,9 @@ template< size_t L>
    FixedString< L>& FixedString< L>::append( const std::string& str, size_t pos,
       size_t count) noexcept
 {
-   return appendImpl( str.c_str(), pos, count);
+   if (pos > str.length())
+      return *this;
+   return appendImpl( str.c_str(), pos, std::min( count, str.length() - pos));
 } // FixedString< L>::append
 
 
@@ -2371,7 +2373,9 @@ template< size_t L> template< size_t S>
    FixedString< L>& FixedString< L>::append( const FixedString< S>& str,
       size_t pos, size_t count) noexcept
 {
-   return appendImpl( str.c_str(), pos, count);
+   if (pos > str.length())
+      return *this;
+   return appendImpl( str.c_str(), pos, std::min( count, str.length() - pos));
 } // FixedString< L>::append
 
 
